@@ -18,6 +18,13 @@ PROPS = {
                  "(van 't Hoff + analytical expression + molar-volume pressure term); the difference code - specification normalises to 0 exactly. "
                  "The fixed point of the Newton solver (mass action / mole balance at convergence for every input and database) is NOT decided.",
          "note": "Doubles read as mathematical reals; log10 uninterpreted; astvc (vf/astvc) and clang's AST are trusted. Partial claim: only the named function-level facts."},
+ "C12": {"claimed": True, "engine": "B", "level": "proof",
+         "technique": "coefficients read from clang's AST as exact rationals; Butcher order conditions in Q; path-wise VCs with z3",
+         "text": "Lemmas over the Runge-Kutta tableau literally coded in Phreeqc::rk_kinetics: every stage combination is linear in the stored stage rates with the strides "
+                 "stage*n_reactions+j, row sums equal the nodes used in the rate_sim_time updates, the weights satisfy all 17 order conditions to order 5 and the embedded weights c-dc all 8 to order 4, "
+                 "sum dc = 0, low-order shortcut weights sum to one; every test that clears the equal-rate flag means |x-y| > tol; cxxKinetics::Current_step returns the step time per manual with all "
+                 "vector indices in range and incremental = cumulative bookkeeping. Step-size control, limit_rates, cvode and agreement with closed-form solutions are NOT decided.",
+         "note": "Decimal literals read as the rationals they spell; value of k at a site = textually last assignment; reaction_step >= 1 and count > 0 assumed; std::vector model."},
  "C13": {"claimed": True, "engine": "B", "level": "proof",
          "technique": "own VC generator over clang AST: symbolic execution with ghost call trace, z3",
          "text": "Generated forwarding contract for every extern \"C\" function of IPhreeqcLib.cpp (same-named method, receiver = instance of id, arguments in order, "
